@@ -49,6 +49,9 @@ def run_io(cmd, data, timeout=900, cwd=None, env=None):
     e = dict(os.environ)
     if env:
         e.update(env)
+    if isinstance(cmd, list) and cmd and cmd[0].endswith("/model/driver"):
+        # the extracted model recurses on unary nat / long lists: give it an unlimited stack
+        cmd = ["bash", "-c", 'ulimit -s unlimited 2>/dev/null; exec "$0" "$@"'] + cmd
     try:
         p = subprocess.run(cmd, cwd=cwd, env=e, input=data, stdout=subprocess.PIPE, stderr=subprocess.PIPE,
                            timeout=timeout, text=True, errors="replace")
